@@ -253,6 +253,8 @@ def ty_of(t):
             return "bytes"
         if t.f == ".decode":
             return "str"
+        if t.f == "call" and t.args and isinstance(t.args[0], Sym) and t.args[0].n.startswith("entropy_f"):
+            return "bytes"                     # A5: an entropy source returns bytes (os.urandom's contract)
         return _APP_TY.get(t.f)
     return None
 
@@ -624,6 +626,14 @@ def mk_app(f, args=(), kw=()):
         if x == y:
             return x
         return App(f[:3] + "2", (x, y))                 # min/max are symmetric: arguments sorted
+    if f in ("list", "tuple", "bytes", "bytearray", "sorted", "set", "frozenset") and n == 1 and not kw and is_app(args[0], "iter") \
+            and len(args[0].args) == 1:
+        return mk_app(f, (args[0].args[0],))            # f(iter(x)) == f(x)
+    if f == "divmod" and n == 2 and not kw and all(ty_of(a) in ("int", None) for a in args):
+        return TupleV([mk_app("FloorDiv", args), mk_app("Mod", args)], "tuple")    # divmod(a, b) == (a // b, a % b)
+    if f == "len" and n == 1 and is_app(args[0], "call") and len(args[0].args) == 2 and isinstance(args[0].args[0], Sym) \
+            and args[0].args[0].n.startswith("entropy_f") and not args[0].kw:
+        return args[0].args[1]                          # A5: entropy_f(n) returns exactly n bytes
     if f == "len" and n == 1:
         a = args[0]
         if isinstance(a, Const):
@@ -718,7 +728,21 @@ def mk_app(f, args=(), kw=()):
                 except Exception:
                     pass
     if f == "getattr" and n == 2 and isinstance(args[1], Const):
+        o = args[0]
+        if is_app(o, "memoryview") and len(o.args) == 1 and ty_of(o.args[0]) == "bytes":
+            # a view of a bytes object: one-dimensional, C-contiguous, itemsize 1
+            if args[1].v in ("c_contiguous", "contiguous", "readonly"):
+                return Const(True)
+            if args[1].v == "nbytes":
+                return mk_app("len", (o.args[0],))
+            if args[1].v == "itemsize" or args[1].v == "ndim":
+                return Const(1)
         return App(f, args)
+    if f in (".tobytes", "bytes") and n == 1 and not kw and is_app(args[0], "memoryview") and len(args[0].args) == 1 \
+            and ty_of(args[0].args[0]) == "bytes":
+        return args[0].args[0]                          # memoryview(b).tobytes() == b for a bytes object b
+    if f == "operator.index" and n == 1 and not kw and ty_of(args[0]) == "int":
+        return args[0]                                  # operator.index(i) == i for an int
     return App(f, args, kw)
 
 
